@@ -100,7 +100,7 @@ def replay_harness(bsv, r, blocks, concretise=True):
     hname = r.hname
     i = src.index('void %s(void)' % hname)
     head = src[:i]
-    fi = u.fn_by_cname[b.name]
+    fi = u.fn_by_cname[b.fn]
     tape = []          # tape index -> path
     stmts = []
     ieee = (b.mode == 'IEEE')
@@ -155,7 +155,7 @@ def replay_harness(bsv, r, blocks, concretise=True):
     out += stmts
     for s in b.pre:
         out.append('  ' + s)
-    call = '%s(%s)' % (b.name, ', '.join(args))
+    call = '%s(%s)' % (b.fn, ', '.join(args))
     if fi.rkind == 'void':
         out.append('  %s;' % call)
     else:
@@ -449,7 +449,7 @@ def generic_T(idx):
 def one_phase(rec, r, o, blocks, bsv, clause, concretise, notes):
     b = r.block
     u = bsv.get_unit(b.unit, blocks, b.mode)
-    fi = u.fn_by_cname[b.name]
+    fi = u.fn_by_cname[b.fn]
     cfile, hname, tape, inputs = replay_harness(bsv, r, blocks, concretise)
     base = r.base + ('.replay' if concretise else '.replayA')
     defs = ['-D' + d for d in getattr(b, 'defines', [])]
@@ -457,11 +457,11 @@ def one_phase(rec, r, o, blocks, bsv, clause, concretise, notes):
     if rc != 0:
         notes.append('replay harness does not build: ' + (err or out)[-500:])
         return False
-    cmd = ['goto-instrument', '--dfcc', hname, '--enforce-contract', b.name]
+    cmd = ['goto-instrument', '--dfcc', hname, '--enforce-contract', b.fn]
     for g in b.replace:
         cmd += ['--replace-call-with-contract', g]
     ctext = open(cfile).read()
-    for shim in bsv.SHIM_CONTRACTS:
+    for shim in bsv.SHIM_CONTRACTS + sorted(set(re.findall(r'\b(vec_\w+_eq)\(', ctext[ctext.index('rt/harness.h'):]))):
         if re.search(r'\b%s\(' % shim, ctext[ctext.index('rt/harness.h'):]):
             cmd += ['--replace-call-with-contract', shim]
     try:
@@ -605,7 +605,7 @@ def one_phase(rec, r, o, blocks, bsv, clause, concretise, notes):
         'call': '\n'.join(calls), 'clause': cl,
         'clause_str': json.dumps(clause or rec.get('description') or ''), 'obs': 'bs_exc after the call: %d", bs_exc); std::printf("',
     }
-    cpp = os.path.join(ROOT, 'evidence', 'replay', os.path.basename(base) + '.cpp')
+    cpp = os.path.join(bsv.EVDIR, 'replay', os.path.basename(base) + '.cpp')
     open(cpp, 'w').write(prog)
     rec['replay_program'] = cpp
     rec['replay_cmd'] = 'python3 %s/bin/replay.py <this file>' % ROOT
